@@ -177,6 +177,41 @@ prop('C14', src='props/c14_safety.cpp', src_by_variant={'fuzz': 'fuzz/fuzz_api.c
      technique='coverage-guided fuzzing (libFuzzer + ASan + UBSan, structure-aware byte decoding) + property-based grammar of boundary-length strings (rapidcheck); safety/totality oracle in-process',
      level_text='Sanitised, assertion-enabled builds are driven by coverage-guided fuzzing and a boundary-length grammar; every call is judged for memory safety, status range, input immutability and allocator balance. Exploration: no absence proof.')
 
+prop('C13', src='props/c13_model.cpp', engine='rapidcheck (stateful)',
+     plan={'quick': [{'variant': 'asan-nd', 'workers': 16}, {'variant': 'asan', 'workers': 16, 'part': 'exhaustive'}],
+           'thorough': [{'variant': 'asan-nd', 'workers': 16}, {'variant': 'asan', 'workers': 16, 'scale': 0.3}, {'variant': 'rel', 'workers': 16}]},
+     exhaustive=True,
+     rule='stateful model-based testing: sequences (length <= 60 quick / <= 200 thorough) over 14 operations on 4 slots - inject(set A|B, optional entries present or NULL), enable_features, create, load(image of a slot | wrong check | wrong header | reserved bit | padding bit | fresh seed), decode / decode_explicit (phrase just encoded from a slot: same coin, other coin, other language, abbreviated, trailing space, 17 tokens, 15 tokens, unknown word; or fixed malformed strings), crypt (6 passwords incl. composed/decomposed pair), encode, store, keygen, queries, free, free(NULL), arm allocation failure - '
+          'plus exhaustive enumeration of all 66429 sequences of length <= 5 over 9 fixed-argument operations. Oracle: abstract model (enabled mask, current dependency set, slot -> (secret, birthday, features)): every status, phrase, KDF argument list and query equals the model\'s; after every step each live seed\'s store image equals the model image (canonical; other slots untouched), '
+          'allocator ledger = live slots, no call lands in the non-current dependency set; fresh blocks are garbage-filled. Non-trivial = crypt followed by encode/store of that slot, or >= 2 live seeds, or a re-injection, or a failed constructor; distinct = fingerprint of the sequence.',
+     required_classes={'quick': ['seq:crypt-then-encode/store', 'seq:>=2-live-seeds', 'seq:re-injection', 'seq:failed-constructor', 'seq:allocation-failure-observed', 'decode:OK', 'decode:CHECKSUM', 'decode:MULT_LANG', 'decode_explicit:LANG', 'load:UNSUPPORTED', 'load:FORMAT', 'create:UNSUPPORTED'], 'thorough': ['seq:crypt-then-encode/store', 'seq:>=2-live-seeds', 'seq:re-injection', 'seq:failed-constructor']},
+     technique='stateful model-based property testing (rapidcheck operation sequences against an abstract seed model, invariant after every step) + exhaustive enumeration of all short sequences',
+     level_text='Random walks over the whole API are compared step by step with an abstract model, and every sequence of length <= 5 over a reduced alphabet is enumerated. Exploration of an unbounded history space.')
+
+prop('C15', src='props/c15_alloc.cpp', engine='rapidcheck (stateful, fault injection)', level='fault_enumeration',
+     plan={'quick': [{'variant': 'asan', 'workers': 16}], 'thorough': [{'variant': 'asan', 'workers': 16}, {'variant': 'asan-nd', 'workers': 16}]},
+     exhaustive=True,
+     rule='fault enumeration: (1) cell scripts - every (entry point x outcome class) cell: create {ok, unsupported}, load {ok, format, checksum, unsupported}, decode and decode_explicit {ok, num-words, lang, mult-lang, checksum, unsupported} - each without a fault and with the 1st, 2nd or 3rd allocation request failing, x 40 language/coin variants, followed by free(NULL), a further create and an encode (subsequent calls behave normally); '
+          '(2) rapidcheck operation sequences (create/load/decode/decode_explicit/crypt/encode/free/free(NULL)/enable_features/arm-failure) with a failure mask armed before about one call in six. Allocator: blocks come back filled with non-zero garbage; the k-th request after arming fails per bit mask. '
+          'Oracle (ledger invariant after every call): no unknown or repeated pointer reaches free; free(NULL) calls no dependency; blocks allocated = seeds live (a failed call leaves none, a successful one exactly one, released exactly once by polyseed_free with the block wiped); if the allocator was asked and returned NULL the status is MEMORY and no seed is produced; following calls work. '
+          'Non-trivial = a call in which the allocator was asked while a failure was armed, or which exits through unsupported/format/checksum; distinct = fingerprint of the sequence.',
+     required_classes={'any': ['cell:create/OK/armed', 'cell:create/OK/unarmed', 'cell:create/UNSUPPORTED/armed', 'cell:create/UNSUPPORTED/unarmed', 'cell:load/OK/armed', 'cell:load/OK/unarmed', 'cell:load/FORMAT/armed', 'cell:load/FORMAT/unarmed', 'cell:load/CHECKSUM/armed', 'cell:load/CHECKSUM/unarmed', 'cell:load/UNSUPPORTED/armed', 'cell:load/UNSUPPORTED/unarmed', 'cell:decode/OK/armed', 'cell:decode/OK/unarmed', 'cell:decode/NUM_WORDS/armed', 'cell:decode/NUM_WORDS/unarmed', 'cell:decode/LANG/armed', 'cell:decode/LANG/unarmed', 'cell:decode/MULT_LANG/armed', 'cell:decode/MULT_LANG/unarmed', 'cell:decode/CHECKSUM/armed', 'cell:decode/CHECKSUM/unarmed', 'cell:decode/UNSUPPORTED/armed', 'cell:decode/UNSUPPORTED/unarmed', 'cell:decode_explicit/OK/armed', 'cell:decode_explicit/OK/unarmed', 'cell:decode_explicit/NUM_WORDS/armed', 'cell:decode_explicit/NUM_WORDS/unarmed', 'cell:decode_explicit/LANG/armed', 'cell:decode_explicit/LANG/unarmed', 'cell:decode_explicit/CHECKSUM/armed', 'cell:decode_explicit/CHECKSUM/unarmed', 'cell:decode_explicit/UNSUPPORTED/armed', 'cell:decode_explicit/UNSUPPORTED/unarmed'] + ['seq:allocation-failure-observed', 'create:MEMORY', 'load:MEMORY', 'decode:MEMORY', 'decode_explicit:MEMORY']},
+     technique='fault injection over operation sequences (rapidcheck stateful generation x allocation-failure schedules) with an allocator-ledger invariant; exhaustive over (entry point x outcome x fault) cells',
+     level_text='Every (entry point x outcome x fault position) cell is populated on each run and the ledger invariant is checked after every call of every generated sequence under ASan. Fault enumeration: exhaustive over cells, sampled within.')
+
+prop('C18', src='props/c18_deps.cpp', engine='rapidcheck (stateful)',
+     plan={'quick': [{'variant': 'asan-nd', 'workers': 16}, {'variant': 'rel', 'workers': 16}], 'thorough': [{'variant': 'asan-nd', 'workers': 16}, {'variant': 'rel', 'workers': 16}]},
+     variant_flags={'rel': {'cxxflags': '-DVERIF_WRAP', 'ldflags': '-Wl,--wrap=malloc,--wrap=free,--wrap=time'}},
+     exhaustive=True,
+     rule='(1) exhaustive: each of the 152 single-bit random-source outputs and their complements: the stored secret equals the delivered 19 bytes with the top two bits of the last dropped, 19 bytes are taken, the birthday is that of the injected clock; '
+          '(2) rapidcheck injection histories: sequences in which about one operation in six is polyseed_inject with set A or B and each optional entry (time, alloc, free) present or NULL, the caller\'s struct overwritten with 0x41 right after the call, interleaved with create/load/decode/crypt/keygen/encode/free on 4 slots. '
+          'Oracle: every dependency call during an operation lands in the set that is current (the other set\'s call counters do not move; the KDF of each set is keyed differently so a stale pointer also shows as a model mismatch); create takes 19 bytes in total from the current random source and asks the current clock; freed blocks are wiped; '
+          'in the --wrap build (gcc -O2 -DNDEBUG, malloc/free/time interposed at link time) libc malloc/free/time are called inside an API window exactly when the corresponding entry is NULL. Non-trivial = sequence contains an injection; distinct = fingerprint of the sequence.',
+     required_classes={'any': ['single-bit-random-output', 'seq:re-injection-to-other-set', 'inject:opt=7', 'inject:opt=1', 'op:create', 'op:crypt']},
+     assumptions=['with the time entry NULL the birthday is compared with the host clock (+-1 month)'],
+     technique='stateful property-based testing of injection histories (rapidcheck) with recording dependency sets A/B and link-time interposition of libc malloc/free/time; exhaustive single-bit random outputs',
+     level_text='Call logs of two independent dependency sets and interposed libc functions decide, per operation, which implementation was used; all single-bit random outputs are enumerated. Exploration over histories.')
+
 NOT_APPLICABLE = {}
 MANIFEST_NOTES = 'All checks: ./check run <ID> --tier quick|thorough; VERIF_SEED selects the generator seed; evidence in /verif/evidence/<ID>.json; replay files under /verif/replays/<ID>/; committed regression cases under /verif/regress/<ID>/. See DESIGN.md.'
 for _p in ['C%02d' % i for i in range(1, 21)]:
